@@ -24,10 +24,41 @@ CMD_NAMES = ('x', 'y', 'foo', 'bar', 'emph', 'textit', 'ref', 'cite', 'alpha', '
              # names that merely start like a special name must stay ordinary commands
              'itemsep', 'endnote', 'begingroup', 'lefteqn', 'biggl', 'inf', 'defn', 'labels', 'sectionmark',
              # names that are also used as environment names
-             'center', 'small')
+             'center', 'small',
+             # long names
+             'includegraphics', 'multicolumn', 'averyveryverylongcommandname',
+             'xverylongcommandnameverylongcommandname', 'DeclareFancyChapterHeadingStyleForAppendicesAndOtherBackMatterSectionsX',
+             # common LaTeX names and names that look like attributes of the node class
+             'rule', 'caption', 'bibitem', 'hline', 'footnote', 'frac', 'sqrt', 'deleted', 'visited', 'name', 'parent', 'string')
+# Dictionary extraction (as fuzzers do): name-like string literals of the package under test that are NOT in this
+# baseline (taken from the pinned tree) hint at new name-keyed behaviour; they join the pools as ordinary names, so
+# the oracles expect them to behave like any other command / environment name.  Empty on the pinned tree.
+DICT_BASELINE = frozenset(['Active', 'Alignment', 'Big', 'Bigg', 'BraceGroup', 'BracketBegin', 'BracketEnd', 'BracketGroup', 'CategoryCodes', 'CommandName', 'Comment', 'DisplayMathGroupBegin', 'DisplayMathGroupEnd', 'DisplayMathSwitch', 'EndOfLine', 'Escape', 'EscapedComment', 'GroupBegin', 'GroupEnd', 'Ignored', 'Invalid', 'Letter', 'LineBreak', 'Macro', 'MathGroupBegin', 'MathGroupEnd', 'MathSwitch', 'MergedSpacer', 'Other', 'ParenBegin', 'ParenEnd', 'PunctuationCommandName', 'SizeCommand', 'Spacer', 'Subscript', 'Superscript', 'TexArgs', 'TexCmd', 'TexDisplayMathEnv', 'TexDisplayMathModeEnv', 'TexEnv', 'TexGroup', 'TexMathEnv', 'TexMathModeEnv', 'TexNamedEnv', 'TexNode', 'TexText', 'Text', 'TokenCode', 'Verbatim', 'align', 'align*', 'alignat', 'array', 'begin', 'big', 'bigg', 'cap', 'comment', 'cup', 'def', 'displaymath', 'end', 'eqnarray', 'eqnarray*', 'equation', 'equation*', 'flalign', 'flalign*', 'gather', 'gather*', 'ignore', 'in', 'infty', 'item', 'iterator', 'label', 'langle', 'lbrack', 'lceil', 'left', 'lfloor', 'listing', 'lstlisting', 'math', 'multline', 'multline*', 'name', 'newcommand', 'noindent', 'notin', 'providecommand', 'rangle', 'rbrack', 'rceil', 'renewcommand', 'rfloor', 'right', 'section', 'spacers', 'split', 'string', 'symbols', 'text', 'textbf', 'tokenize', 'ulcorner', 'urcorner', 'verbatim', 'verbatimtab'])
+
+
+def extra_names():
+    import ast
+    import glob
+    import os
+    root = os.path.abspath(os.environ.get('VERIF_REPO', '/repo'))
+    found = set()
+    for f in sorted(glob.glob(os.path.join(root, 'TexSoup', '*.py'))):
+        try:
+            tree = ast.parse(open(f, encoding='utf-8').read())
+        except (OSError, SyntaxError):
+            continue
+        for n in ast.walk(tree):
+            if isinstance(n, ast.Constant) and isinstance(n.value, str) and re.fullmatch(r'\\?[A-Za-z]{2,40}\*?', n.value):
+                found.add(n.value.lstrip('\\'))
+    return tuple(sorted(found - DICT_BASELINE))[:12]
+
+
+EXTRA_NAMES = extra_names()
+CMD_NAMES = CMD_NAMES + EXTRA_NAMES * 2
 MATH_CMD_NAMES = ('frac', 'sqrt', 'sum', 'alpha', 'beta', 'mathbf', 'x', 'hat', 'lim', 'leftarrow', 'rightarrow',
                   'biggl', 'lefteqn', 'inf', 'Biggr')
-ENV_NAMES = ('e', 'f', 'center', 'quote', 'tabular', 'thm', 'figure*', 'doc', 'document', 'small')
+ENV_NAMES = ('e', 'f', 'center', 'quote', 'tabular', 'thm', 'figure*', 'doc', 'document', 'small', 'longtableenvironmentname',
+             'anenvironmentwhosenameislongerthanthirtytwocharacters', 'verbatim*') + EXTRA_NAMES
 INNER_MATH_ENVS = ('split', 'cases', 'array', 'aligned')
 
 WORDS = ('a', 'b', 'x', 'foo', 'bar', 'Hello', 'world', '42', '3.14', 'é', 'naïve', 'ß', 'Ω', '日本', '👩',
@@ -407,6 +438,8 @@ class Gen:
 
     # ---- leaves
     def text(self, ctx, maxatoms=5):
+        if self.p.flat and self.chance(0.04):
+            maxatoms = 160        # rarely a very long text run (well over 100 tokens)
         if self.p.ws and self.chance(self.p.ws):
             return Node('text', text=self.pick(BLANKS))
         if self.p.lines and self.chance(self.p.lines):
@@ -822,10 +855,16 @@ PROFILES = {
     'small': Profile(depth=2, sibs=3),
     'smalltwin': Profile(depth=2, sibs=3, twin=True),
     'tinytwin': Profile(depth=2, sibs=2, twin=True),
+    # long flat documents: 60-250 top-level siblings, thousands of characters, three-digit line numbers
+    'flat': Profile(depth=1, sibs=4, flat=250, lines=0.25),
+    # wide small documents: 12-40 short siblings (two-digit indices) for the edit checks
+    'wide': Profile(depth=1, sibs=3, flat=40, twin=True),
     'smalllists': Profile(depth=2, sibs=3, twin=True, lists=3.0),
     'smalldefs': Profile(depth=2, sibs=3, twin=True, defs=3.0),
     'strict': Profile(depth=3, sibs=4, twin=True, strict_sep=True),
     'nomath': Profile(depth=3, sibs=4, math=0.0, verb=0.0, lists=0.0, plain=True),
+    # the same material as a long flat document (hundreds to thousands of tokens behind an early construct)
+    'flatnomath': Profile(depth=1, sibs=4, flat=250, math=0.0, verb=0.0, lists=0.0, plain=True),
     'ws': Profile(depth=3, sibs=5, ws=0.45),
     'lines': Profile(depth=3, sibs=5, lines=0.4),
 }
